@@ -486,3 +486,42 @@ theorem bessel2 (n f w : Vec3 ℝ) (hn : Vec3.dot n n = 1) (hf : Vec3.dot f f = 
   linarith
 
 end K
+
+namespace K
+
+/-- the two ear volumes in the listener's own frame: `X = w·n` (right), `Z = w·f` (back),
+    `W = |w|²`, `w` = emitter − listener; unit orientation -/
+theorem earVolumes_frame (p lp : Vec3 ℝ) (lo : Quat ℝ) (hq : Quat.normSq lo = 1) :
+    earVolumes p lp lo
+      = ((vol (-cA * Vec3.dot (Vec3.sub p lp) (axisX lo) - cB * Vec3.dot (Vec3.sub p lp) (axisZ lo) - cA * (1 / 10))
+            (Vec3.dot (Vec3.sub p lp) (Vec3.sub p lp) + 2 * (1 / 10) * Vec3.dot (Vec3.sub p lp) (axisX lo) + (1 / 10) ^ 2) + 1) / 2,
+         (vol (cA * Vec3.dot (Vec3.sub p lp) (axisX lo) - cB * Vec3.dot (Vec3.sub p lp) (axisZ lo) - cA * (1 / 10))
+            (Vec3.dot (Vec3.sub p lp) (Vec3.sub p lp) - 2 * (1 / 10) * Vec3.dot (Vec3.sub p lp) (axisX lo) + (1 / 10) ^ 2) + 1) / 2) := by
+  have hn := axisX_unit lo hq
+  have hfn := axisZ_axisX lo hq
+  set n := axisX lo with hnd
+  set f := axisZ lo with hfd
+  set w := Vec3.sub p lp with hw
+  have eL : Vec3.sub p (earPositions lp lo).1 = Vec3.add w (Vec3.scale n (1 / 10)) := by
+    rw [earPositions_real]; ext <;> simp [hnd, hw] <;> ring
+  have eR : Vec3.sub p (earPositions lp lo).2 = Vec3.sub w (Vec3.scale n (1 / 10)) := by
+    rw [earPositions_real]; ext <;> simp [hnd, hw] <;> ring
+  obtain ⟨d1, d2, d3, d4⟩ := ear_dots n f w cA cB (1 / 10) hn hfn
+  unfold earVolumes
+  refine Prod.ext ?_ ?_
+  · show earVolume (earDirections lo).1 (earPositions lp lo).1 p = _
+    rw [earVolume_real, eL, earDirections_real, d1, d3]
+  · show earVolume (earDirections lo).2 (earPositions lp lo).2 p = _
+    rw [earVolume_real, eR, earDirections_real, d2, d4]
+
+theorem cB_ge_quarter : 1 / 4 ≤ cB := by
+  unfold cB
+  rw [Real.sin_pi_div_eight]
+  have h2 : Real.sqrt 2 ≤ 7 / 4 := by
+    rw [Real.sqrt_le_iff]; constructor <;> norm_num
+  have h3 : (1 / 2 : ℝ) ≤ Real.sqrt (2 - Real.sqrt 2) := by
+    apply Real.le_sqrt_of_sq_le; nlinarith
+  linarith
+theorem cA_le_one : cA ≤ 1 := Real.cos_le_one _
+
+end K
